@@ -13,6 +13,7 @@ rows = []
 for i in ids:
     d = os.path.join(ROOT, 'seeded', i)
     meta = json.load(open(os.path.join(d, 'meta.json')))
+    if meta.get("status") == "obsolete": rows.append((i, meta["property"], "obsolete", meta.get("obsolete_reason", "")[:120])); continue
     tree = '/repo'; env = dict(os.environ)
     if ALT:
         tree = '/tmp/seeded_wt'; sh(f'git -C /repo worktree remove --force {tree}'); sh(f'git -C /repo worktree add --detach {tree} HEAD'); env['VERIF_REPO'] = tree
